@@ -44,6 +44,7 @@ struct world
         dist = h.get("dist", 0); name_idx = h.get("name", 0); user = h.get("user", 0);
         f.h = &h; f.log = &log; f.tab = &tab; f.f_kinds = h.get("fk", 2);
         f.dist_kinds = dist; f.dist_x_symbolic = h.get("dx", 0) != 0;
+        f.concrete_first = static_cast<std::size_t>(h.get("fc", 0));
         m.h = &h; m.log = &log; m.tab = &tab; m.coord_calls = &cc; m.dens_calls = &dc;
         m.jac_kinds = h.get("jk", 1);
         m.density_may_vanish = h.get("pz", 0) != 0;
@@ -139,7 +140,7 @@ struct multi_alg
     using chk = hep::multi_channel_chkpt_with_rng<E, T>;
     static void params(world<T>& w)
     {
-        w.beta = w.h.input("beta", 0.0, 1.0, true, false);
+        w.beta = w.h.input("beta", 0.0, 1.0);   // beta = 0 (no adaptation) included
         w.minw = w.h.input("min", 0.0, 1.0);
         w.h.assume(w.h.lt(w.minw * T(w.C), T(1.0)));
         if (w.user)
